@@ -153,3 +153,12 @@ contract(f"{B}::UserSessionManager._logout_user#bounded", props=["C16"], bounded
          ensures=[("no_session_of_the_user_left", "forall(j, 0, len(self.remote_sessions), dict_val(self.remote_sessions, j).user is not user)"
                                                   " and (self.local_session is None or self.local_session.user is not user)")],
          modifies=["heap"], allocates=True)
+
+# ---- the session manager's own request routes answer with a response, whatever the outcome of the login ------------------------------------
+contract(f"{B}::UserSessionManager.remote_login", verify=False, note="thin wrapper over _login(local=False), proved above: the session id, or None when refused",
+         ensures=[], modifies=["heap"], allocates=True)
+contract(f"{B}::UserSessionManager._init_request_manager#remote_login", props=["C05", "C16"], region=("request", "remote_login"),
+         types={"request": "List[Any]", "context": "Any"},
+         requires=["len(request) == 3", "self.parent is not None"],
+         ensures=[("answers_with_a_response", "result is not None and isinstance(result, RequestResponse)")],
+         modifies=["heap"], allocates=True)
